@@ -155,10 +155,19 @@ def hmc_reference_cases(tier):
     # the windowed stager given explicitly (also with nothing to adapt), warm-up traced
     cases.append(dict(sampler="static", n_process=1, n_warm=7, n_main=3, trace_warm_up=True, nchain=2, force_memmap=False, stager="windowed"))
     cases.append(dict(sampler="static", n_process=2, n_warm=4, n_main=2, trace_warm_up=False, nchain=2, force_memmap=False, stager="windowed"))
+    # statistics-only runs (trace_funcs=None), warm-up recorded: both stagers, in memory and memory-mapped
+    cases.append(dict(sampler="static", n_process=1, n_warm=7, n_main=3, trace_warm_up=True, nchain=2, force_memmap=False, stager="windowed",
+                      trace_none=True))
+    cases.append(dict(sampler="dynamic", n_process=1, n_warm=3, n_main=3, trace_warm_up=True, nchain=2, force_memmap=True, trace_none=True))
+    if tier == "thorough":
+        cases.append(dict(sampler="static", n_process=2, n_warm=5, n_main=2, trace_warm_up=True, nchain=3, force_memmap=True, stager="windowed",
+                          trace_none=True))
+        cases.append(dict(sampler="static", n_process=1, n_warm=4, n_main=2, trace_warm_up=False, nchain=2, force_memmap=False, stager="windowed",
+                          trace_none=True))
     return cases
 
 
-def hmc_vs_reference(*, sampler, n_process, n_warm, n_main, trace_warm_up, nchain, force_memmap, seed=11, stager=None):
+def hmc_vs_reference(*, sampler, n_process, n_warm, n_main, trace_warm_up, nchain, force_memmap, seed=11, stager=None, trace_none=False):
     """Run the real sampler without adapters and an independent plain loop over the same transitions
     and per-chain generators; returns None or (kind, description)."""
     import logging
@@ -186,8 +195,8 @@ def hmc_vs_reference(*, sampler, n_process, n_warm, n_main, trace_warm_up, nchai
         warnings.simplefilter("ignore")
         stg = mici.stagers.WindowedWarmUpStager() if stager == "windowed" else None
         out = smp.sample_chains(n_warm, n_main, [x.copy() for x in init], adapters=[], n_process=n_process,
-                                trace_funcs=[E._IntrTrace(0)], trace_warm_up=trace_warm_up, display_progress=False,
-                                force_memmap=force_memmap, stager=stg)
+                                trace_funcs=None if trace_none else [E._IntrTrace(0)], trace_warm_up=trace_warm_up,
+                                display_progress=False, force_memmap=force_memmap, stager=stg)
     # reference
     system2, smp2 = build()
     states = []
@@ -207,14 +216,19 @@ def hmc_vs_reference(*, sampler, n_process, n_warm, n_main, trace_warm_up, nchai
             rows.append(np.array(st.pos))
         want_pos = rows if trace_warm_up else rows[n_warm:]
         want_acc = acc if trace_warm_up else acc[n_warm:]
-        got = np.asarray(out.traces["pos"][c])
-        if got.shape[0] != len(want_pos):
-            return ("length", f"chain {c}: {got.shape[0]} rows, expected {len(want_pos)}")
-        if len(want_pos) and not np.array_equal(got, np.array(want_pos)):
-            bad = int(np.argmax(np.any(got != np.array(want_pos), axis=1)))
-            return ("rows", f"chain {c}: trace row {bad} differs from the reference loop")
-        if not np.array_equal(np.asarray(out.statistics["accept_stat"][c]), np.array(want_acc)):
-            return ("stats", f"chain {c}: accept_stat rows differ from the reference loop")
+        if not trace_none:
+            got = np.asarray(out.traces["pos"][c])
+            if got.shape[0] != len(want_pos):
+                return ("length", f"chain {c}: {got.shape[0]} rows, expected {len(want_pos)}")
+            if len(want_pos) and not np.array_equal(got, np.array(want_pos)):
+                bad = int(np.argmax(np.any(got != np.array(want_pos), axis=1)))
+                return ("rows", f"chain {c}: trace row {bad} differs from the reference loop")
+        got_acc = np.asarray(out.statistics["accept_stat"][c])
+        if got_acc.shape[0] != len(want_acc):
+            return ("stats-length", f"chain {c}: {got_acc.shape[0]} statistics rows, expected {len(want_acc)}")
+        if not np.array_equal(got_acc, np.array(want_acc)):
+            return ("stats", f"chain {c}: accept_stat rows differ from the reference loop"
+                    + (" (statistics-only run, trace_funcs=None)" if trace_none else ""))
         if not np.array_equal(out.final_states[c].pos, rows[-1] if rows else init[c]):
             return ("final", f"chain {c}: final state is not the state after the last iteration")
     return None
@@ -467,19 +481,20 @@ def stager_partition(out, tier):
         for nw in nwarms:
             for (nf, ns) in (mixes if nw % 10 == 0 or nw < 30 else mixes[:1]):
                 for nm in ((0, 5) if nw % 25 == 0 else (5,)):
-                    for tw in ((True, False) if nw % 50 == 0 else (False,)):
+                    for tw, has_tf in (((True, True), (False, True), (True, False), (False, False)) if nw % 50 == 0 else
+                                       ((False, True), (True, False)) if nw % 10 == 3 else ((False, True),)):
                         fast = [_A(True, i) for i in range(nf)]
                         slow = [_A(False, 10 + i) for i in range(ns)]
                         ads = {"t": fast + slow}
                         try:
-                            stages = stager.stages(nw, nm, ads, [lambda s: {}], trace_warm_up=tw)
+                            stages = stager.stages(nw, nm, ads, [lambda s: {}] if has_tf else None, trace_warm_up=tw)
                         except Exception as e:  # noqa: BLE001
                             out.violate(f"C16:stager:{kind}:exception:{type(e).__name__}",
                                         f"{kind} stager raised {e!r} for n_warm_up={nw}, n_main={nm}, settings {kw}",
                                         {"engine": "stager", "kind": kind, "kw": kw, "nw": nw, "nm": nm})
                             continue
                         rec = {"kind": kind, "nwarm": nw, "nmain": nm, "fast": {a.i for a in fast},
-                               "slow": {a.i for a in slow}, "tracewarm": tw, "kw": kw, "stages": []}
+                               "slow": {a.i for a in slow}, "tracewarm": tw, "hastrace": has_tf, "kw": kw, "stages": []}
                         for label, stg in stages.items():
                             ids = {a.i for al in (stg.adapters or {}).values() for a in al}
                             rec["stages"].append({"label": label, "n": int(stg.n_iter), "adapters": ids,
@@ -495,8 +510,9 @@ def stager_partition(out, tier):
             '[label |-> %s, n |-> %d, adapters |-> %s, traced |-> %s, stats |-> %s, slow |-> %s]' % (
                 tlc.tla_str(s["label"]), s["n"], setl(s["adapters"]), tlc.to_tla(s["traced"]), tlc.to_tla(s["stats"]),
                 tlc.to_tla(s["slow"])) for s in r["stages"]) + ">>"
-        return '[kind |-> %s, nwarm |-> %d, nmain |-> %d, fast |-> %s, slow |-> %s, tracewarm |-> %s, stages |-> %s]' % (
-            tlc.tla_str(r["kind"]), r["nwarm"], r["nmain"], setl(r["fast"]), setl(r["slow"]), tlc.to_tla(r["tracewarm"]), stages)
+        return '[kind |-> %s, nwarm |-> %d, nmain |-> %d, fast |-> %s, slow |-> %s, tracewarm |-> %s, hastrace |-> %s, stages |-> %s]' % (
+            tlc.tla_str(r["kind"]), r["nwarm"], r["nmain"], setl(r["fast"]), setl(r["slow"]), tlc.to_tla(r["tracewarm"]),
+            tlc.to_tla(r["hastrace"]), stages)
 
     invs = ["NonNegative", "WarmUpSumsExactly", "MainStageLast", "NoMainWhenZero", "FastEverywhere",
             "SlowOnlyInWindows", "SlowInAllWindows", "WarmUpTracing"]
